@@ -1276,11 +1276,15 @@ impl<'a, 'b> InternalDelphiLogicalLineParser<'a, 'b> {
         let paren_level = self.paren_level;
         let brack_level = self.brack_level;
         let generic_level = self.generic_level;
+        // Inside parentheses or brackets a `<` is not necessarily the start of type arguments
+        // (`(A < B)`), so the chevron depth only has to come back when a `<` is being skipped.
+        let skipping_chevrons =
+            matches!(self.get_current_token_type(), Some(TT::Op(OK::LessThan(_))));
 
         self.next_token();
         while (self.paren_level != paren_level
             || self.brack_level != brack_level
-            || self.generic_level != generic_level)
+            || (skipping_chevrons && self.generic_level != generic_level))
             && self.get_current_token_type().is_some()
         {
             self.next_token();
